@@ -34,6 +34,7 @@ pub fn exec(op: &str, args: &[&str]) -> String {
         "json" => enc::op_json(args),
         "tojson" => enc::op_tojson(args),
         "elg" => enc::op_elg(args),
+        "ae" => enc::op_ae(args),
         _ => "bad-op".to_string(),
     }
 }
